@@ -32,6 +32,9 @@ requests (bytes are arrays of 0..255, text arrays of code points):
         → {"leafs":[b…],"leaffaces":[b…],"leafbrushes":[b…],"mindist":[b…],"tabs":{…}}
   {"op":"x_nodes","layout":L,"tabs":{planes,leafs,faces},"nodes":[id…],"nd":[[id,{…}]…],"fuel":n}
         → {"bytes":[b…],"nodes":[id…],"tabs":{…}} | {"err":"fuel"}
+  {"op":"x_prims","layout":L,"prims":[{typ,indices,verts:[[bits×3]…]}]} → {"prims":[b…],"indices":[b…],"verts":[b…]}
+  {"op":"x_texinfo","layout":L,"vitamin":b,"textures":[name id…],"fold":[[name id, class]…],"tdv":[[id,{mat,r,w,h}]…],"infos":[{f,flags,td}]}
+        → {"texinfo":[b…],"texdata":[b…],"textures":[name id…]}
   {"op":"gen"}                                           → facts extracted from the source
 -/
 open Lean StructCodec C11
@@ -398,6 +401,44 @@ def handle (j : Json) : Except String Json := do
     | some (recs, nodes', t') =>
       pure (Json.mkObj [("bytes", ← packRecs "nodes" layout recs), ("nodes", Wire.ofNatList nodes'),
         ("tabs", Json.mkObj [("planes", Wire.ofNatList t'.planes), ("leafs", Wire.ofNatList t'.leafs), ("faces", Wire.ofNatList t'.faces)])])
+  | "x_prims" =>
+    let layout ← j.getObjValAs? String "layout"
+    let pj ← (← j.getObjVal? "prims").getArr?
+    let ps ← pj.toList.mapM fun q => do
+      let vj ← (← q.getObjVal? "verts").getArr?
+      let vs ← vj.toList.mapM fun v => do
+        let a ← Wire.natList v
+        pure (UInt32.ofNat a[0]!, UInt32.ofNat a[1]!, UInt32.ofNat a[2]!)
+      pure (PrimV.mk (← intOf q "typ") (← Wire.intList (← q.getObjVal? "indices")) vs)
+    let r := writePrims [] [] ps
+    pure (Json.mkObj [("prims", ← packRecs "primitives" layout r.1),
+      ("indices", ← packRecs "primindices" layout (r.2.1.map (fun i => [Val.int i]))),
+      ("verts", ← packRecs "primverts" layout (r.2.2.map (fun v => [Val.f32 v.1, Val.f32 v.2.1, Val.f32 v.2.2])))])
+  | "x_texinfo" =>
+    let layout ← j.getObjValAs? String "layout"
+    let vit ← boolOf j "vitamin"
+    let textures ← natsOf j "textures"
+    let fj ← (← j.getObjVal? "fold").getArr?
+    let foldT ← fj.toList.mapM fun q => do
+      let a ← Wire.natList q
+      pure (a[0]!, a[1]!)
+    let dj ← (← j.getObjVal? "tdv").getArr?
+    let tds ← dj.toList.mapM fun q => do
+      let a ← q.getArr?
+      let o := a[1]!
+      let r ← Wire.natList (← o.getObjVal? "r")
+      pure ((← (a[0]!).getNat?), TexDataV.mk (← natOf o "mat") (UInt32.ofNat r[0]!) (UInt32.ofNat r[1]!) (UInt32.ofNat r[2]!)
+        (← intOf o "w") (← intOf o "h"))
+    let ij ← (← j.getObjVal? "infos").getArr?
+    let infos ← ij.toList.mapM fun q => do
+      let f ← Wire.natList (← q.getObjVal? "f")
+      pure (TexInfoV.mk (f.map UInt32.ofNat) (← intOf q "flags") (← natOf q "td"))
+    let fold (n : Nat) : Nat := match foldT.find? (·.1 == n) with
+      | some p => p.2
+      | none => n
+    let r := writeTexinfo vit fold (lookupD tds ⟨0, 0, 0, 0, 0, 0⟩) textures infos
+    pure (Json.mkObj [("texinfo", ← packRecs "texinfo" layout r.1), ("texdata", ← packRecs "texdata" layout r.2.1),
+      ("textures", Wire.ofNatList r.2.2)])
   | "gen" =>
     pure (Json.mkObj [
       ("findOrExtendBounded", Json.bool Gen.Bspfmt.findOrExtendBounded),
